@@ -46,6 +46,43 @@ def key_norm(k):
     )
 
 
+def _has_ite(t, depth=12):
+    if z3.is_app(t):
+        if t.decl().kind() == z3.Z3_OP_ITE:
+            return True
+        if depth > 0:
+            return any(_has_ite(c, depth - 1) for c in t.children())
+    return False
+
+
+class Enum:
+    """An arbitrary-order enumeration: item i is the uninterpreted ``f(i)`` for 0 <= i < n."""
+
+    def __init__(self, n, label):
+        self.n = n
+        self.f = z3.Function(V.fresh_name(label), z3.IntSort(), V.Val)
+        self.inv = z3.Function(V.fresh_name(label + "_index"), V.Val, z3.IntSort())  # position of a member
+
+    def axioms(self, member):
+        """The enumeration lists exactly the members (``member(k)`` a z3 Bool), each exactly once:
+        f is a bijection between [0, n) and the members, with inverse ``inv``."""
+        i = z3.Int(V.fresh_name("i"))
+        k = z3.Const(V.fresh_name("k"), V.Val)
+        body_k = z3.Implies(member(k), z3.And(self.inv(k) >= 0, self.inv(k) < self.n, self.f(self.inv(k)) == k))
+        if _has_ite(member(k)):  # not a legal trigger
+            ax_k = z3.ForAll([k], body_k, patterns=[self.inv(k)])
+        else:
+            ax_k = z3.ForAll([k], body_k, patterns=[member(k)])
+        return [
+            self.n >= 0,
+            z3.ForAll([i], z3.Implies(z3.And(i >= 0, i < self.n), z3.And(member(self.f(i)), self.inv(self.f(i)) == i)), patterns=[self.f(i)]),
+            ax_k,
+        ]
+
+    def __getitem__(self, i):
+        return self.f(i if z3.is_expr(i) else z3.IntVal(int(i)))
+
+
 def elem_eq(a, b):
     """Container element comparison: identity shortcut, then ==."""
     return z3.Or(a == b, ops.eq_term(None, a, b))
@@ -370,6 +407,37 @@ def install(eng):
                 items = list(a0.items())
             elif isinstance(a0, SymDict):
                 items = list(a0.items)
+            elif isinstance(a0, (tuple, list)) and all(isinstance(p, tuple) and len(p) == 2 for p in a0) and not kw:
+                items = list(a0)
+            if items is None and isinstance(a0, SymIter) and getattr(a0, "pair_of_target", False) and getattr(getattr(a0, "src", None), "set_content", None) is not None:
+                # Map((x, x) for x in <set>): domain = the set's members, every member maps to itself
+                content = a0.src.set_content
+                kk = z3.Const(V.fresh_name("k"), V.Val)
+                ident = z3.Lambda([kk], kk)
+                nn = set_card(content)
+                st.assume(nn >= 0)
+                yield st, new_map_value(eng, st, IMap, ident, content, nn)
+                return
+            if items is None and isinstance(a0, SymIter):
+                # Map(iterable of (key, value) pairs) with keys known to be pairwise distinct
+                if not getattr(a0, "distinct_keys", False):
+                    raise Unsupported("immutables.Map(pairs): keys of the symbolic iterable are not known to be distinct")
+                n = a0.length
+                i = z3.Int(V.fresh_name("i"))
+                kk = z3.Const(V.fresh_name("k"), V.Val)
+                m = z3.Const(V.fresh_name("m"), z3.ArraySort(V.Val, V.Val))
+                d = z3.Const(V.fresh_name("d"), z3.ArraySort(V.Val, z3.BoolSort()))
+                pair = a0.item(eng, st, i)
+                if not (isinstance(pair, tuple) and len(pair) == 2):
+                    raise Unsupported("immutables.Map(iterable): items are not pairs")
+                kt, vt = key_norm(eng.lift(pair[0], st)), eng.lift(pair[1], st)
+                st.assume(
+                    n >= 0,
+                    z3.ForAll([i], z3.Implies(z3.And(i >= 0, i < n), z3.And(z3.Select(d, kt), z3.Select(m, kt) == vt))),
+                    z3.ForAll([kk], z3.Implies(z3.Select(d, kk), z3.Exists([i], z3.And(i >= 0, i < n, kt == kk)))),
+                )
+                yield st, new_map_value(eng, st, IMap, m, d, n)
+                return
             if items is None:
                 raise Unsupported("immutables.Map(...) from a symbolic iterable")
             m = z3.K(V.Val, V.VNone)
@@ -453,20 +521,34 @@ def install(eng):
         m, d, n = map_parts(self)
         st.assume(n >= 0)
         key = ("map_iter", what, z3.simplify(V.Val.a(self.t)).get_id())
-        ks = z3.Const(V.fresh_name("keys"), V.ValSeq)
-        i, j = z3.Int(V.fresh_name("i")), z3.Int(V.fresh_name("j"))
-        k = z3.Const(V.fresh_name("k"), V.Val)
-        st.assume(
-            z3.Length(ks) == n,
-            z3.ForAll([i], z3.Implies(z3.And(i >= 0, i < n), z3.Select(d, ks[i]))),
-            z3.ForAll([i, j], z3.Implies(z3.And(i >= 0, i < j, j < n), ks[i] != ks[j])),
-            z3.ForAll([k], z3.Implies(z3.Select(d, k), z3.Exists([i], z3.And(i >= 0, i < n, ks[i] == k)))),
-        )
+        ks = Enum(n, "keys")
+        st.assume(*ks.axioms(lambda k_: z3.Select(d, k_)))
         return ks, m
+
+    def typed_key(eng, st_, kk, where):
+        """Declared element type of map keys / set members (pack option eng.key_type: a contract.T).
+        It is an obligation first (it must follow from the function's preconditions) and only then used."""
+        kt = getattr(eng, "key_type", None)
+        if kt is None:
+            return SV(kk)
+        if hasattr(kt, "bind"):
+            kt.bind(eng)
+        eng.oblige(st_, f"declared key type {kt.name} of the iterated {where} follows from the preconditions", kt.pred(kk), "key-type")
+        st_.assume(kt.pred(kk))
+        return SV(kk, hint=kt.hint)
 
     def map_keys(eng, st, args, kw):
         ks, m = map_iter_seq(eng, st, args[0], "keys")
-        yield st, SymIter(ks)
+
+        def item(eng, st_, i):
+            kk = ks[i]
+            st_.assume(eng.external_ref_fact(st_, kk))
+            return typed_key(eng, st_, kk, "keys")
+
+        it = SymIter(None, length=ks.n, item=item, label="keys")
+        it.distinct_keys = True
+        it.keys_seq = ks
+        yield st, it
 
     def map_values(eng, st, args, kw):
         ks, m = map_iter_seq(eng, st, args[0], "values")
@@ -476,7 +558,7 @@ def install(eng):
             st_.assume(eng.external_ref_fact(st_, r))
             return SV(r)
 
-        yield st, SymIter(None, length=z3.Length(ks), item=item, label="values")
+        yield st, SymIter(None, length=ks.n, item=item, label="values")
 
     def map_items(eng, st, args, kw):
         ks, m = map_iter_seq(eng, st, args[0], "items")
@@ -485,9 +567,9 @@ def install(eng):
             kk = ks[i]
             r = z3.Select(m, kk)
             st_.assume(eng.external_ref_fact(st_, kk), eng.external_ref_fact(st_, r))
-            return (SV(kk), SV(r))
+            return (typed_key(eng, st_, kk, "items"), SV(r))
 
-        it = SymIter(None, length=z3.Length(ks), item=item, label="items")
+        it = SymIter(None, length=ks.n, item=item, label="items")
         it.keys_seq = ks
         yield st, it
 
@@ -504,8 +586,77 @@ def install(eng):
         m, d, n = map_parts(args[0])
         yield st, SV(V.mk_int(map_hash(m, d)))
 
-    # ------------------------------------------------------------------ builtins over symbolic iterables
+    # ------------------------------------------------------------------ Python set() (mutable; content in st.sets)
     import builtins
+
+    set_card = ops.opq("set_card", z3.ArraySort(V.Val, z3.BoolSort()), z3.IntSort())
+    EMPTY_SET = z3.K(V.Val, z3.BoolVal(False))
+
+    @reg(builtins.set, "set")
+    def m_set(eng, st, args, kw):
+        sv = eng.alloc(st, set)
+        if not args:
+            content = EMPTY_SET
+        else:
+            src = args[0]
+            if isinstance(src, (tuple, list)):
+                content = EMPTY_SET
+                for x in src:
+                    content = z3.Store(content, key_norm(eng.lift(x, st)), True)
+            elif isinstance(src, SV) and src.hint is set:
+                content = z3.Select(st.sets, V.Val.a(src.t))
+            else:
+                raise Unsupported("set(iterable) of a symbolic iterable")
+        st.sets = z3.Store(st.sets, V.Val.a(sv.t), content)
+        yield st, sv
+
+    @mm(set, "add")
+    def set_add(eng, st, args, kw):
+        self, x = args
+        a = V.Val.a(self.t)
+        xt = eng.lift(x, st) if isinstance(x, SV) and x.hint is not None else key_norm(eng.lift(x, st))
+        eng.escape(st, xt)
+        st.sets = z3.Store(st.sets, a, z3.Store(z3.Select(st.sets, a), xt, True))
+        yield st, None
+
+    @mm(set, "__contains__")
+    def set_contains(eng, st, args, kw):
+        self, x = args
+        yield st, SV(V.mk_bool(z3.Select(z3.Select(st.sets, V.Val.a(self.t)), key_norm(eng.lift(x, st)))))
+
+    @mm(set, "__len__")
+    def set_len(eng, st, args, kw):
+        c = z3.Select(st.sets, V.Val.a(args[0].t))
+        n = set_card(c)
+        st.assume(n >= 0, (n == 0) == (c == EMPTY_SET))
+        yield st, SV(V.mk_int(n))
+
+    def enum_set(eng, st, content):
+        """Arbitrary-order enumeration of a set: fresh sequence listing exactly the members, each once."""
+        n = set_card(content)
+        ks = Enum(n, "members")
+        st.assume(*ks.axioms(lambda k_: z3.Select(content, k_)))
+        return ks
+
+    eng.enum_set = enum_set
+
+    @mm(set, "__iter__")
+    def set_iter(eng, st, args, kw):
+        content = z3.Select(st.sets, V.Val.a(args[0].t))
+        ks = enum_set(eng, st, content)
+
+        def item(eng_, st_, i, ks=ks):
+            kk = ks[i]
+            st_.assume(eng_.external_ref_fact(st_, kk))
+            return typed_key(eng_, st_, kk, "set")
+
+        it = SymIter(None, length=ks.n, item=item, label="set members")
+        it.keys_seq = ks
+        it.distinct_keys = True
+        it.set_content = content
+        yield st, it
+
+    # ------------------------------------------------------------------ builtins over symbolic iterables
 
     def to_iter(eng, st, v):
         from .loops import _as_symiter, _concrete_items
@@ -558,3 +709,32 @@ def install(eng):
             return
         n = it.length
         yield st, SymIter(None, length=n, item=lambda e, s, i: it.item(e, s, n - 1 - i), label="reversed")
+
+
+def install_wrappers(eng):
+    """Type invariants of basilisp's wrapper classes (_inner is the right library value) and the
+    collections.abc mixin methods (items/keys/values of Mapping) in terms of the wrapped value."""
+    from basilisp.lang.map import PersistentMap
+    from basilisp.lang.set import PersistentSet
+    from basilisp.lang.vector import PersistentVector, MapEntry
+
+    C = eng.libcls
+    imap, pvec = C["IMap"], C["PVec"]
+    imid, pvid = eng.class_id(imap), eng.class_id(pvec)
+    for cls in (PersistentMap, PersistentSet, PersistentVector, MapEntry):
+        eng.class_id(cls)
+    eng.field_types[("PersistentMap", "_inner")] = lambda v: (z3.And(V.is_ref(v), V.cls_of(V.Val.a(v)) == imid), imap)
+    eng.field_types[("PersistentSet", "_inner")] = lambda v: (z3.And(V.is_ref(v), V.cls_of(V.Val.a(v)) == imid), imap)
+    eng.field_types[("PersistentVector", "_inner")] = lambda v: (z3.And(V.is_ref(v), V.cls_of(V.Val.a(v)) == pvid), pvec)
+
+    def via_inner(name):
+        def fn(e, s, args, k):
+            inner = e.load_field(s, args[0].t, "_inner", PersistentMap)
+            yield from e.method_models[(imap, name)].fn(e, s, [inner] + list(args[1:]), k)
+
+        return fn
+
+    # collections.abc.Mapping.items/keys/values iterate __iter__ and look each key up with __getitem__,
+    # both of which PersistentMap delegates to the wrapped immutables.Map (trusted: stdlib mixins)
+    for nm in ("items", "keys", "values"):
+        eng.method_models[(PersistentMap, nm)] = Model(f"PersistentMap.{nm}", via_inner(nm))
